@@ -11,6 +11,7 @@ package main
 //     and after the native replay on the real build reproduces it.
 
 import (
+	"sort"
 	"regexp"
 	"bytes"
 	"encoding/hex"
@@ -463,7 +464,7 @@ func evalPureUF(op string, args []any) (any, bool) {
 // argument values, as an implication (args = values => app = native value).
 func pureLemmas(mod *Model, q []*Term) []*Term {
 	var out []*Term
-	apps := subterms(q, func(t *Term) bool { return t.kind == KApp && t.uf && strings.HasPrefix(t.op, "pure:") })
+	apps := subterms(q, func(t *Term) bool { return t.kind == KApp && t.uf && refinableUF(t.op) })
 	for _, u := range apps {
 		var conds []*Term
 		var vals []any
@@ -485,7 +486,14 @@ func pureLemmas(mod *Model, q []*Term) []*Term {
 		if !ok {
 			continue
 		}
-		nat, ok := evalPureUF(u.op, vals)
+		var nat any
+		if strings.HasPrefix(u.op, "pure:") {
+			nat, ok = evalPureUF(u.op, vals)
+		} else if mod.UF != nil {
+			nat, ok = mod.UF(u.op, vals)
+		} else {
+			ok = false
+		}
 		if !ok {
 			continue
 		}
@@ -503,18 +511,28 @@ func pureLemmas(mod *Model, q []*Term) []*Term {
 // into uninterpreted library functions; every candidate is checked by the solver and natively.
 var trickyStrings = []string{"\x1b[0m", "\x00", "a\x7fb", "<&>", "é", "\\", "\"", "İ", "a b", "\u2028", " ", "%41", "A", "-1", "+1", "1e3", "0x10", "08", "a.b", "a,b", "(", "\xff"}
 
-func trickyCandidates(q []*Term, round int) []*Term {
+// refinableUF: uninterpreted symbols with a native interpretation that the refinement loop may
+// pin down pointwise (library stand-ins and the JSON string serialiser).
+func refinableUF(op string) bool {
+	return strings.HasPrefix(op, "pure:") || op == "jstr" || op == "tolower" || op == "itoa"
+}
+
+func trickyCandidates(q []*Term) []*Term {
 	var out []*Term
 	seen := map[*Term]bool{}
-	k := 0
-	for _, u := range subterms(q, func(t *Term) bool { return t.kind == KApp && t.uf && strings.HasPrefix(t.op, "pure:") }) {
+	var atoms []*Term
+	for _, u := range subterms(q, func(t *Term) bool { return t.kind == KApp && t.uf && refinableUF(t.op) }) {
 		for a := range u.Atoms() {
-			if a.sort != SStr || seen[a] {
-				continue
+			if a.sort == SStr && !seen[a] {
+				seen[a] = true
+				atoms = append(atoms, a)
 			}
-			seen[a] = true
-			out = append(out, TEq(a, TStr(trickyStrings[(round+k)%len(trickyStrings)])))
-			k++
+		}
+	}
+	sort.Slice(atoms, func(i, j int) bool { return atoms[i].id < atoms[j].id })
+	for _, v := range trickyStrings {
+		for _, a := range atoms {
+			out = append(out, TEq(a, TStr(v)))
 		}
 	}
 	return out
